@@ -24,18 +24,18 @@ type cmsHandle interface {
 
 type cmsMem struct{ s *gostatix.CountMinSketch }
 
-func (h cmsMem) Update(d []byte, c uint64) error        { h.s.Update(d, c); return nil }
-func (h cmsMem) UpdateOnce(d []byte)                     { h.s.UpdateOnce(d) }
-func (h cmsMem) UpdateString(d string, c uint64) error   { h.s.UpdateString(d, c); return nil }
-func (h cmsMem) Count(d []byte) (uint64, error)          { return h.s.Count(d), nil }
-func (h cmsMem) CountString(d string) (uint64, error)    { return h.s.CountString(d), nil }
-func (h cmsMem) Export() ([]byte, error)                 { return h.s.Export() }
-func (h cmsMem) Merge(o cmsHandle) error                 { return h.s.Merge(o.(cmsMem).s) }
-func (h cmsMem) Equals(o cmsHandle) (bool, error)        { return h.s.Equals(o.(cmsMem).s), nil }
+func (h cmsMem) Update(d []byte, c uint64) error       { h.s.Update(d, c); return nil }
+func (h cmsMem) UpdateOnce(d []byte)                   { h.s.UpdateOnce(d) }
+func (h cmsMem) UpdateString(d string, c uint64) error { h.s.UpdateString(d, c); return nil }
+func (h cmsMem) Count(d []byte) (uint64, error)        { return h.s.Count(d), nil }
+func (h cmsMem) CountString(d string) (uint64, error)  { return h.s.CountString(d), nil }
+func (h cmsMem) Export() ([]byte, error)               { return h.s.Export() }
+func (h cmsMem) Merge(o cmsHandle) error               { return h.s.Merge(o.(cmsMem).s) }
+func (h cmsMem) Equals(o cmsHandle) (bool, error)      { return h.s.Equals(o.(cmsMem).s), nil }
 
 type cmsRedis struct{ s *gostatix.CountMinSketchRedis }
 
-func (h cmsRedis) Update(d []byte, c uint64) error      { return h.s.Update(d, c) }
+func (h cmsRedis) Update(d []byte, c uint64) error       { return h.s.Update(d, c) }
 func (h cmsRedis) UpdateOnce(d []byte)                   { h.s.UpdateOnce(d) }
 func (h cmsRedis) UpdateString(d string, c uint64) error { return h.s.UpdateString(d, c) }
 func (h cmsRedis) Count(d []byte) (uint64, error)        { return h.s.Count(d) }
